@@ -4,7 +4,7 @@
    running without it (stdout, diagnostics, exit status, files, status), or one pedantic Error with exit
    status 1.  Lex- and parse-time rejections leave the file system untouched and print nothing but the
    parser warnings and the blank line before the diagnostic.  Each of the five construct sites rejects. *)
-From PE2 Require Import Run Lemmas_Lexer Lemmas_PedParser Lemmas_Ped Lemmas_PedRun.
+From PE2 Require Import Run Lemmas_Lexer Lemmas_PedParser Lemmas_Ped Lemmas_Out Lemmas_PedRun.
 Local Open Scope Z_scope.
 
 Theorem C20_run_file_only_rejects : forall lim fuel content stdin fs rnd,
@@ -58,6 +58,26 @@ Theorem C20_parse_time_rejection : forall lim fuel content stdin fs rnd toks k t
   mkObs (List.concat (map warning_text (rev (p_warns ps))) ++ [ch_nl]) [diag_of_parse k t] 1 fs SDone [].
 Proof. exact parse_time_rejection. Qed.
 Print Assumptions C20_parse_time_rejection.
+
+(* nothing after a run-time construct executes: the rejected run's output is the text printed before the
+   construct plus the blank line that precedes every diagnostic, and that text is a prefix of what the program
+   prints without the option *)
+Theorem C20_run_time_rejection_output_prefix : forall lim fuel content stdin fs rnd toks b ps,
+  lex true (content ++ [ch_nl]) = inl toks -> parse_program true toks = POk b ps ->
+  run_file true lim fuel content stdin fs rnd = run_file false lim fuel content stdin fs rnd \/
+  ((let o := run_file true lim fuel content stdin fs rnd in
+    ob_exit o = 1 /\ ob_status o = SDone /\ exists d, ob_diags o = [d] /\ d_kind d = DPedantic) /\
+   exists pre more, ob_out (run_file true lim fuel content stdin fs rnd) = pre ++ [ch_nl] /\
+                    ob_out (run_file false lim fuel content stdin fs rnd) = pre ++ more).
+Proof. exact run_time_rejection_output_prefix. Qed.
+Print Assumptions C20_run_time_rejection_output_prefix.
+
+Theorem C20_evaluator_rejection_keeps_prefix : forall repl lim fuel bl c s,
+  run_block true repl lim fuel bl c s = run_block false repl lim fuel bl c s \/
+  ((exists d s', run_block true repl lim fuel bl c s = (Fail (FErr d), s') /\ d_kind d = DPedantic /\ d_cls d = EOther) /\
+   exists e, s_out (snd (run_block false repl lim fuel bl c s)) = e ++ s_out (snd (run_block true repl lim fuel bl c s))).
+Proof. exact Lemmas_Out.run_block_ped_output_prefix. Qed.
+Print Assumptions C20_evaluator_rejection_keeps_prefix.
 
 (* the five sites *)
 Theorem C20_no_break_continue_token : forall input toks,
